@@ -24,3 +24,9 @@ native_unit("stark_native", "examples", "examples", "native/stark_bounded.rs", [
             "every honest proof of the grid is accepted after a serialization round trip that leaves it unchanged (prover and verifier derive the same challenges); proofs are refused for other public inputs; every tested single-bit flip of a serialized proof is refused and neither parsing nor verification panics",
             "NATIVE EXECUTION, not a proof: 6 example computations (single- and multi-segment) x 22 option sets (2 extensions x 5 FRI schedules x grinding {0, 9} + 2) over the 128-bit field; bit flips on 2 small proofs x 4 option sets: every 5th bit (quick) / every bit (thorough)",
             timeout=2400)
+
+native_unit("lagrange_native", "winterfell", "winterfell", "native/lagrange_bounded.rs", ["C04", "C03", "C06", "C12"],
+            ["Prover::generate_proof (multi-segment + Lagrange kernel / GKR path)", "verifier::verify / perform_verification", "Proof::to_bytes / from_bytes", "VerifierChannel::new", "ProverChannel", "GkrVerifier plumbing", "LagrangeKernel constraints"],
+            "with a Lagrange-kernel column, 1..3 auxiliary random elements and an absorbed public input: every honest proof of the grid is accepted after a serialization round trip that leaves it unchanged (prover and verifier draw GKR randomness, auxiliary randomness and all later challenges in the same order); proofs are refused for another public input; every tested damaged proof (bit flips, byte extremes, truncations) is refused and nothing panics",
+            "NATIVE EXECUTION, not a proof: 64-bit field x {no, quadratic, cubic} extension x 5 (trace length, FRI schedule) pairs x aux rands {1,2,3} x 2 (queries, blowup, grinding) sets x {Blake3_256, Rp64_256}; damage on the first 8 resp. 2 configurations: every 5th bit (quick) / every bit (thorough)",
+            timeout=2400)
